@@ -31,6 +31,12 @@ func main() {
 		cmdC17(seed, tier, outdir)
 	case "c13":
 		cmdC13(seed, tier, outdir)
+	case "c14":
+		cmdC14(seed, tier, outdir)
+	case "c15":
+		cmdC15(seed, tier, outdir)
+	case "c16":
+		cmdC16(seed, tier, outdir)
 	default:
 		fmt.Fprintln(os.Stderr, "unknown command", os.Args[1])
 		os.Exit(2)
